@@ -708,6 +708,119 @@ def rule_seglen(ctx):
         ctx.ok(rid, "icc-payload-length", "%d payload write(s) cut with AppMarker.length" % (n + delegated), nontrivial=True, fn=f)
 
 
+def rule_pending_bits(ctx):
+    """correction bits counted in a scan function are written or buffered before it returns"""
+    from ..facts import callee, op_local, op_place, op_const_int
+    from ..mirutil import Defs
+    rid = "R-JBR-PENDING"
+    ctx.rule(rid, "jxl_jbr::reconstruct::scan: a scan function that counts pending correction bits in a local counter (incremented by one "
+                  "per bit, handed to write_raw / buffer_refinement_bits / a helper together with the bits) hands the counter to such a "
+                  "call, or resets it after one, on every path from an increment to a normal return.  Decided by a walk over (block, "
+                  "pending) states in which a test `counter > 0` / `!= 0` / `== 0` is resolved while bits are pending.  A block that "
+                  "ends a refinement band with pending bits and no zero run must still emit them")
+    cr = ctx.prog.crate("jxl_jbr")
+    found = 0
+    for f in cr.fn_list:
+        if f.kind == "Promoted" or "reconstruct::scan" not in f.path:
+            continue
+        defs = Defs(f)
+        cands = []
+        for l in range(1, len(f.locals)):
+            if f.local_ty(l) not in ("u8", "u16", "u32", "usize"):
+                continue
+            ds = [d for d in defs.of(l) if not f.is_cleanup(d[0]) and d[2] == "assign"]
+            if len(ds) < 2:
+                continue
+            inc = zero = False
+            for d in ds:
+                rv = d[3][2]
+                if rv[0] == "use" and op_const_int(rv[1]) == 0:
+                    zero = True
+                if rv[0] == "use" and op_place(rv[1]) is not None and len(op_place(rv[1])) == 2:
+                    src = defs.single(op_place(rv[1])[0])
+                    if src and src[2] == "assign" and src[3][2][0] == "bin" and src[3][2][1] in ("AddWithOverflow", "Add") and \
+                            op_local(src[3][2][2]) == l and op_const_int(src[3][2][3]) == 1:
+                        inc = True
+            if inc and zero:
+                cands.append(l)
+
+        def copies_of(l):
+            out = {l}
+            for b, blk in enumerate(f.blocks):
+                for st in blk[0]:
+                    if st[0] == "=" and len(st[1]) == 1 and st[2][0] == "use" and op_place(st[2][1]) == [l]:
+                        out.add(st[1][0])
+            return out
+        for l in cands:
+            cp = copies_of(l)
+            consumers = {b for b, t in f.calls() if any(op_local(a) in cp and op_place(a) is not None and len(op_place(a)) == 1 for a in t[2])
+                         and not (callee(t) and callee(t)["fn"].startswith("core::"))}
+            if not consumers:
+                continue
+            found += 1
+            ctx.seen(f)
+            # tests of the counter against 0
+            tests = {}
+            for b, blk in enumerate(f.blocks):
+                for st in blk[0]:
+                    if st[0] == "=" and len(st[1]) == 1 and st[2][0] == "bin" and st[2][1] in ("Gt", "Ne", "Eq", "Lt", "Ge", "Le"):
+                        a, c = st[2][2], st[2][3]
+                        if op_local(a) in cp and op_const_int(c) == 0:
+                            tests[st[1][0]] = {"Gt": 1, "Ne": 1, "Eq": 0, "Le": 0}.get(st[2][1])
+                        elif op_local(c) in cp and op_const_int(a) == 0:
+                            tests[st[1][0]] = {"Lt": 1, "Ne": 1, "Eq": 0, "Ge": 0}.get(st[2][1])
+            start = (0, False)
+            seen, work, bad = {start}, [start], False
+            while work:
+                b, pending = work.pop()
+                known = {}
+                for st in f.stmts(b):
+                    if st[0] != "=":
+                        continue
+                    if st[1] == [l]:
+                        rv = st[2]
+                        if rv[0] == "use" and op_const_int(rv[1]) == 0:
+                            pending = False
+                        elif rv[0] == "use" and op_place(rv[1]) is not None and len(op_place(rv[1])) == 2:
+                            pending = True
+                    if len(st[1]) == 1 and st[1][0] in tests and tests[st[1][0]] is not None and pending:
+                        known[st[1][0]] = tests[st[1][0]]
+                t = f.term(b)
+                if b in consumers:
+                    pending = False
+                if t[0] == "ret":
+                    if pending:
+                        bad = True
+                    continue
+                nxt = list(f.succs(b))
+                if t[0] == "switch" and op_local(t[1]) in known:
+                    v = known[op_local(t[1])]
+                    tgt = t[3]
+                    for sv, x in t[2]:
+                        if int(sv) == v:
+                            tgt = x
+                    nxt = [tgt]
+                for x in nxt:
+                    if f.is_cleanup(x):
+                        continue
+                    # an error return (from_residual) is not a normal return
+                    tx = f.term(x)
+                    if tx[0] == "call" and callee(tx) and callee(tx)["fn"].endswith("FromResidual::from_residual"):
+                        continue
+                    s2 = (x, pending)
+                    if s2 not in seen:
+                        seen.add(s2)
+                        work.append(s2)
+            key = "%s|%s#%d" % (f.path, f.local_name(l) or "counter", found)
+            if bad:
+                ctx.bad(rid, key + "|dropped", "a path returns normally while bits counted in `%s` are still pending: they were neither written nor "
+                        "buffered, so the reconstructed scan lacks them" % (f.local_name(l) or "the counter"), fn=f)
+            else:
+                ctx.ok(rid, key, "pending bits are handed on before every normal return", nontrivial=True, fn=f)
+    ctx.count(rid + ".counters", found)
+    ctx.floor(rid + ".counters", 1)
+
+
 def main(pid, tier, repo=None):
     configs = ("workspace",) if tier == "quick" else ("workspace", "norayon")
     ctx = Ctx(pid, tier, configs=configs, repo=repo)
@@ -719,6 +832,7 @@ def main(pid, tier, repo=None):
         rule_markerstate(ctx)
         rule_layout(ctx)
         rule_seglen(ctx)
+        rule_pending_bits(ctx)
         fieldrange.run(ctx, LIB_CRATES, only_crates=("jxl_jbr", "jxl_oxide"))
         searchunwrap.run(ctx, ["jxl_jbr"], floor=20)
         from . import fixguards
